@@ -9,6 +9,8 @@ THEOREMS += ['C13_kernel_source_is_model', 'C13_source_counts', 'C13_capture_cpu
 
 
 THEOREMS += ['C13_driver_accumulate_is_model', 'C13_driver_capture_is_model']   # driver code from the source text (Gen/WaveDriversSrc.v)
+THEOREMS += ['C13_wavesim_model_activity_strip', 'C13_wavesim_model_activity_strip_b', 'C13_strip_kept_op_fixpoint',
+             'C13_activity_strip_hyps_example', 'C13_strip_branch_row_lost', 'C13_strip_branch_no_op']   # abuf under strip_forks vs the UNSTRIPPED line waveforms (Proofs/WaveStripAcc.v)
 
 def oracle(k, w):
     for lane in range(k.sims):
